@@ -76,7 +76,18 @@ fn unicode_garbage(rng: &mut Rng) -> String {
 }
 
 fn noise_line(rng: &mut Rng) -> String {
-    match rng.below(12) {
+    match rng.below(13) {
+        12 => {
+            // bytes that are not valid UTF-8 somewhere in the line (never after a known command
+            // word: what an engine that decodes lossily makes of those is its own business)
+            let mark = crate::verif_seam::INVALID_UTF8_MARK;
+            match rng.below(4) {
+                0 => mark.to_string(),
+                1 => format!("foo {} bar", mark),
+                2 => format!("{}{}", mark, unicode_garbage(rng)),
+                _ => format!("{} {}", rng.pick(&["xyzzy", "debug", "stop", "register"]), mark),
+            }
+        }
         0 => "x".repeat(4096),
         1 => format!("{} {}", rng.pick(NOISE), "y".repeat(300)),
         2 | 3 | 4 => unicode_garbage(rng),
@@ -770,6 +781,20 @@ pub fn fidelity(bin: &str, n: u64) -> (u64, Option<String>) {
     for r in 0..n {
         let mut rng = Rng::new(crate::rng::mix(4242, "fidelity", r));
         let mut lines = base_script(&mut rng);
+        // every other script carries noise lines after the handshake (the real binary gets the
+        // invalid-UTF-8 mark as the byte 0xFF)
+        if r % 2 == 1 {
+            let mut noisy = vec![];
+            for (i, l) in lines.iter().enumerate() {
+                noisy.push(l.clone());
+                if i > 0 || lines.len() == 1 {
+                    while rng.chance(1, 3) {
+                        noisy.push(noise_line(&mut rng));
+                    }
+                }
+            }
+            lines = noisy;
+        }
         let eof = rng.chance(1, 3);
         if !eof {
             lines.push("quit".into());
@@ -787,7 +812,17 @@ pub fn fidelity(bin: &str, n: u64) -> (u64, Option<String>) {
         {
             let mut stdin = child.stdin.take().unwrap();
             for l in &lines {
-                let _ = writeln!(stdin, "{}", l);
+                let mut bytes: Vec<u8> = vec![];
+                for c in l.chars() {
+                    if c == crate::verif_seam::INVALID_UTF8_MARK {
+                        bytes.push(0xFF);
+                    } else {
+                        let mut b = [0u8; 4];
+                        bytes.extend_from_slice(c.encode_utf8(&mut b).as_bytes());
+                    }
+                }
+                bytes.push(b'\n');
+                let _ = stdin.write_all(&bytes);
             }
             // dropping stdin closes it (EOF)
         }
